@@ -47,7 +47,7 @@ type GenesisSpec struct {
 	MaxGas       int64            `json:"max_gas"`        // consensus param; -1 unlimited
 	EthSupplyCap string           `json:"eth_supply_cap"` // wei
 	OtherCurr    bool             `json:"other_currencies"`
-	Erc20        bool             `json:"erc20"`       // register the ERC20 token TTC (wrapped as currency TTC) and give every account EthBalance units of it
+	Erc20        bool             `json:"erc20"` // register the ERC20 token TTC (wrapped as currency TTC) and give every account EthBalance units of it
 	EthBalance   int64            `json:"eth_balance"`
 	Claims       map[string]int64 `json:"claims"` // delegation reward claims preloaded at genesis (units) // wrapped ETH units given to every account at genesis (with matching supply counter)
 }
@@ -81,6 +81,7 @@ type ProposalOpt struct {
 	FundingDeadline int64 `json:"funding_deadline"`
 	VotingDeadline  int64 `json:"voting_deadline"`
 	PassPct         int   `json:"pass_pct"`
+	NoBurn          bool  `json:"no_burn,omitempty"` // fund distributions without a burnt part
 }
 
 type RewardsOpt struct {
@@ -288,14 +289,18 @@ func BuildGenesis(gs GenesisSpec) *Genesis {
 	dist := func(v, f, b, e, bp, p float64) governance.ProposalFundDistribution {
 		return governance.ProposalFundDistribution{Validators: v, FeePool: f, Burn: b, ExecutionCost: e, BountyPool: bp, ProposerReward: p}
 	}
+	passedDist, failedDist := dist(18, 18, 18, 18, 10, 18), dist(10, 10, 10, 20, 50, 0)
+	if gs.Proposal.NoBurn { // nothing is burnt: whatever a distribution pays beyond the contributions is new value
+		passedDist, failedDist = dist(27, 18, 0, 18, 10, 27), dist(20, 10, 0, 20, 50, 0)
+	}
 	po := func(cost string) governance.ProposalOption {
 		ini, goal := amt(gs.Proposal.InitialFunding), amt(gs.Proposal.FundingGoal)
 		return governance.ProposalOption{
 			InitialFunding: &ini, FundingGoal: &goal,
 			FundingDeadline: gs.Proposal.FundingDeadline, VotingDeadline: gs.Proposal.VotingDeadline,
 			PassPercentage:         gs.Proposal.PassPct,
-			PassedFundDistribution: dist(18, 18, 18, 18, 10, 18),
-			FailedFundDistribution: dist(10, 10, 10, 20, 50, 0),
+			PassedFundDistribution: passedDist,
+			FailedFundDistribution: failedDist,
 			ProposalExecutionCost:  cost,
 		}
 	}
